@@ -69,9 +69,9 @@ theorem repairTail_closed (classify : Bytes → LineClass) {f : Bytes} (hnl : f.
 
 /-- a reader of a log to which one batch is being appended (the file grows from `f` to `appendFile … f evs` in any number of visible steps that are
     prefixes of the final content) decodes everything that was there plus a whole number of the batch's events — never an error -/
-theorem chunkedRead_of_append {classify : Bytes → LineClass} {encode : Event → Bytes} {limit : Nat}
-    (hc : Codec classify encode) (f : Bytes) (es evs : List Event)
-    (hr : readEvents classify limit f = .ok es) (hs : Short encode limit evs) (hnl : f.isEmpty ∨ endsWithNL f = true)
+theorem chunkedRead_of_append {W : Event → Prop} {classify : Bytes → LineClass} {encode : Event → Bytes} {limit : Nat}
+    (hc : CodecOn W classify encode) (f : Bytes) (es evs : List Event)
+    (hr : readEvents classify limit f = .ok es) (hs : Short W encode limit evs) (hnl : f.isEmpty ∨ endsWithNL f = true)
     (vs : List (Bytes × Nat)) (hne : vs ≠ [])
     (hfirst : ∀ v ∈ vs, f <+: v.1 ∧ v.1 <+: appendFile classify encode f evs) (hgrow : GrowsOnly (vs.map (·.1)))
     (hall : f <+: chunkedRead vs []) :
